@@ -322,7 +322,7 @@ Lemma write_isolated lsb msb sign old v nv i : field_ok lsb msb ->
   Z.testbit (p64 nv) i = Z.testbit (p64 old) i.
 Proof.
   intros H Hm Hi Hb. unfold bm_masked in Hm.
-  destruct (_ || _) in Hm; [discriminate|]. inversion Hm; subst nv; clear Hm.
+  destruct (_ || _) in Hm; [discriminate|]. apply Ok_inj in Hm; subst nv.
   rewrite (mask_pattern lsb msb H). fold (new_pat lsb msb old v).
   rewrite p64_s64 by (apply new_pat_range; exact H).
   rewrite new_pat_testbit by (auto; lia). rewrite Hb. rewrite testbit_p64 by lia. reflexivity.
@@ -364,7 +364,7 @@ Lemma write_readback lsb msb sign old v nv : field_ok lsb msb ->
   bm_masked lsb msb sign old v = Ok nv -> bm_apply lsb msb sign nv = v.
 Proof.
   intros H Hr Hm. pose proof H as [H0 H1]. rewrite bm_masked_ok in Hm by assumption.
-  inversion Hm; subst nv; clear Hm. rewrite read_any by exact H. unfold spec_get.
+  apply Ok_inj in Hm; subst nv. rewrite read_any by exact H. unfold spec_get.
   rewrite p64_s64 by (apply new_pat_range; exact H). rewrite field_raw_new by exact H.
   unfold spec_min, spec_max in Hr. set (w := width lsb msb) in *.
   assert (Hw : 1 <= w <= 64) by (subst w; unfold width; lia).
@@ -400,10 +400,10 @@ Lemma sibling_unchanged lsb msb sign l2 m2 s2 old v nv :
   bm_apply l2 m2 s2 nv = bm_apply l2 m2 s2 old.
 Proof.
   intros H H2 D Hm. rewrite !read_any by exact H2. apply spec_get_ext; [exact H2|].
-  intros i Hi Hb. eapply write_isolated; eauto.
+  intros i Hi Hb. apply (write_isolated lsb msb sign old v nv i H Hm Hi).
   unfold mbit, disjoint in *. cbn [fst snd] in D.
-  destruct (l2 <=? i) eqn:A; destruct (i <=? m2) eqn:B; cbn [andb] in Hb; try discriminate.
-  destruct (lsb <=? i) eqn:A2; destruct (i <=? msb) eqn:B2; cbn [andb]; try reflexivity. lia.
+  apply andb_true_iff in Hb as [A B]. apply Z.leb_le in A, B.
+  apply andb_false_iff. destruct D; [right|left]; apply Z.leb_gt; lia.
 Qed.
 
 (* any finite interleaving of in-range writes to pairwise disjoint sibling fields:
@@ -477,3 +477,122 @@ Example siblings_example :
   run_writes [{| f_lsb := 0; f_msb := 3; f_sign := 0 |}; {| f_lsb := 4; f_msb := 7; f_sign := 1 |}]
              0 [(0%nat, 5); (1%nat, -2); (0%nat, 9)] = Ok 233.
 Proof. vm_compute. reflexivity. Qed.
+
+(* ---- node level: MaskedIntReg::{value,set_value} through the device ------------------------------ *)
+
+Lemma pow256 n : 256 ^ Z.of_nat n = 2 ^ (8 * Z.of_nat n).
+Proof. change 256 with (2 ^ 8). rewrite <- Z.pow_mul_r by lia. reflexivity. Qed.
+
+Lemma of_le_int_image z len e : 0 <= len -> of_le (order e (int_image z len e)) = z mod 2 ^ (8 * len).
+Proof.
+  intros Hl. unfold int_image. rewrite order_involutive. apply of_le_le_bytes.
+  rewrite pow256, Z2Nat.id by lia. apply Z.mod_pos_bound. apply pow2_pos. lia.
+Qed.
+
+Lemma testbit_mod_low a k i : 0 <= i < k -> Z.testbit (a mod 2 ^ k) i = Z.testbit a i.
+Proof. intros H. apply Z.mod_pow2_bits_low. lia. Qed.
+
+Lemma testbit_p64_low z i : 0 <= i < 64 -> Z.testbit (p64 z) i = Z.testbit z i.
+Proof. intros H. rewrite testbit_p64 by lia. destruct (i <? 64) eqn:C; [reflexivity|lia]. Qed.
+
+(* value() of any image, keeping track of everything the next step needs *)
+Lemma int_value_full r n d : supported_int_len (r_len r) = true -> bytes_ok (d_mem d) ->
+  in_dev d (r_addr r) (r_len r) ->
+  exists z d', int_value r n d = (Ok z, d') /\ d_log d' = RdAcc (r_addr r) (r_len r) :: d_log d /\
+    d_mem d' = d_mem d /\ d_base d' = d_base d /\ d_rej d' = d_rej d /\
+    z mod 2 ^ (8 * r_len r) = of_le (order (r_endian r) (take (r_len r) (drop (r_addr r - d_base d) (d_mem d)))).
+Proof.
+  intros Hs Hb Hin.
+  assert (Hl : 0 <= r_len r) by (destruct (supported_cases _ Hs) as [E|[E|[E|E]]]; rewrite E; lia).
+  destruct (dev_read_spec d (r_addr r) (r_len r) Hin) as [d' [Hr [Hlog [Hm [Hba Hrej]]]]].
+  set (bs := take (r_len r) (drop (r_addr r - d_base d) (d_mem d))) in *.
+  assert (Hzl : zlen bs = r_len r).
+  { subst bs. destruct Hin as [A [B _]]. rewrite zlen_take; [reflexivity|]. rewrite zlen_drop; lia. }
+  assert (Hbb : bytes_ok bs) by (subst bs; apply bytes_ok_take, bytes_ok_drop, Hb).
+  destruct (int_decode_any bs (r_endian r) (n_sign n) Hbb) as [z [Hz [Hi _]]].
+  { rewrite Hzl. exact Hs. }
+  exists z, d'. unfold int_value, reg_read. rewrite Z.eqb_refl. cbn [negb]. rewrite Hr. cbn [bind2 ret].
+  rewrite Hz. repeat (split; [assumption || reflexivity|]).
+  rewrite <- Hi. rewrite Hzl. symmetry. apply of_le_int_image. exact Hl.
+Qed.
+
+Lemma writes_of_rd a n l : writes_of (RdAcc a n :: l) = writes_of l.
+Proof. reflexivity. Qed.
+Lemma writes_of_wr a bs l : writes_of (WrAcc a bs :: l) = WrAcc a bs :: writes_of l.
+Proof. reflexivity. Qed.
+
+Lemma node_out_of_range_no_write r n v d l m :
+  supported_int_len (r_len r) = true -> bytes_ok (d_mem d) -> in_dev d (r_addr r) (r_len r) ->
+  norm_field r n = Ok (l, m) -> field_ok l m ->
+  v < spec_min l m (n_sign n) \/ spec_max l m (n_sign n) < v ->
+  exists d', mir_set_value r n v d = (Err E_INVALID_DATA, d') /\
+             writes_of (d_log d') = writes_of (d_log d) /\ d_mem d' = d_mem d.
+Proof.
+  intros Hs Hb Hin Hn Hf Hv.
+  destruct (int_value_full r n d Hs Hb Hin) as [z [d0 [Hv0 [Hlog0 [Hm0 _]]]]].
+  exists d0. unfold mir_set_value. rewrite Hv0. cbn [bind2]. rewrite Hn. cbn [bind].
+  rewrite bm_masked_out_of_range by assumption.
+  split; [reflexivity|]. rewrite Hlog0. split; [apply writes_of_rd|exact Hm0].
+Qed.
+
+Lemma node_set_then_value r n v d l m :
+  supported_int_len (r_len r) = true -> bytes_ok (d_mem d) -> in_dev d (r_addr r) (r_len r) ->
+  norm_field r n = Ok (l, m) -> field_ok l m -> m < 8 * r_len r ->
+  spec_min l m (n_sign n) <= v <= spec_max l m (n_sign n) ->
+  exists d1 d2 img,
+    mir_set_value r n v d = (Ok tt, d1) /\
+    writes_of (d_log d1) = WrAcc (r_addr r) img :: writes_of (d_log d) /\ zlen img = r_len r /\
+    same_outside d d1 (r_addr r) (r_len r) /\
+    mir_value r n d1 = (Ok v, d2) /\
+    (forall i, 0 <= i < 8 * r_len r -> mbit l m i = false ->
+       Z.testbit (of_le (order (r_endian r) img)) i =
+       Z.testbit (of_le (order (r_endian r) (take (r_len r) (drop (r_addr r - d_base d) (d_mem d))))) i).
+Proof.
+  intros Hs Hb Hin Hn Hf Hm8 Hv.
+  assert (HL : 0 <= r_len r /\ 8 * r_len r <= 64)
+    by (destruct (supported_cases _ Hs) as [E|[E|[E|E]]]; rewrite E; lia).
+  destruct HL as [Hl Hl64].
+  destruct (int_value_full r n d Hs Hb Hin) as [z0 [d0 [Hv0 [Hlog0 [Hm0 [Hb0 [Hrej0 Hz0]]]]]]].
+  set (nv := s64 (new_pat l m z0 v)).
+  assert (Hmk : bm_masked l m (n_sign n) z0 v = Ok nv) by (apply bm_masked_ok; assumption).
+  set (img := int_image nv (r_len r) (r_endian r)).
+  assert (Hzi : zlen img = r_len r) by (subst img; apply zlen_int_image; exact Hl).
+  assert (Hin0 : in_dev d0 (r_addr r) (r_len r)).
+  { destruct Hin as [A [B C]]. unfold in_dev. rewrite Hb0, Hm0, Hrej0. auto. }
+  destruct (dev_write_spec d0 (r_addr r) img) as [d1 [Hw [Hlog1 [Hout [Hrej1 Hrd]]]]].
+  { rewrite Hzi. exact Hin0. }
+  rewrite Hzi in *.
+  assert (Hb1 : bytes_ok (d_mem d1)).
+  { destruct Hout as [O1 [O2 [O3 O4]]].
+    rewrite <- (take_drop (r_addr r - d_base d0) (d_mem d1)). apply bytes_ok_app.
+    - rewrite O3, Hm0. apply bytes_ok_take, Hb.
+    - rewrite <- (take_drop (r_len r) (drop (r_addr r - d_base d0) (d_mem d1))). apply bytes_ok_app.
+      + rewrite Hrd. subst img. unfold int_image. apply bytes_ok_order, le_bytes_ok.
+      + rewrite drop_drop by (destruct Hin0; lia). rewrite O4, Hm0. apply bytes_ok_drop, Hb. }
+  assert (Hin1 : in_dev d1 (r_addr r) (r_len r)).
+  { destruct Hin0 as [A [B C]]. destruct Hout as [O1 [O2 _]]. unfold in_dev. rewrite O1, O2. auto. }
+  destruct (int_value_full r n d1 Hs Hb1 Hin1) as [z1 [d2 [Hv1 [_ [_ [_ [_ Hz1]]]]]]].
+  assert (Ob : d_base d1 = d_base d0) by (destruct Hout as [O1 _]; exact O1).
+  rewrite Ob, Hrd in Hz1. subst img. rewrite of_le_int_image in Hz1 by exact Hl.
+  exists d1, d2, (int_image nv (r_len r) (r_endian r)).
+  split.
+  { unfold mir_set_value. rewrite Hv0. cbn [bind2]. rewrite Hn. cbn [bind]. rewrite Hmk.
+    unfold int_set_value. rewrite bytes_from_int_image by exact Hs.
+    unfold reg_write. rewrite Hzi, Z.eqb_refl. cbn [negb]. exact Hw. }
+  split; [rewrite Hlog1, Hlog0, writes_of_wr, writes_of_rd; reflexivity|].
+  split; [exact Hzi|].
+  split.
+  { destruct Hout as [O1 [O2 [O3 O4]]]. unfold same_outside. rewrite <- Hb0, <- Hm0. auto. }
+  assert (Hbits : forall i, 0 <= i < 8 * r_len r -> Z.testbit (p64 z1) i = Z.testbit (p64 nv) i).
+  { intros i Hi. rewrite !testbit_p64_low by lia.
+    rewrite <- (testbit_mod_low z1 (8 * r_len r)) by lia. rewrite Hz1. apply testbit_mod_low. lia. }
+  split.
+  { unfold mir_value. rewrite Hv1. cbn [bind2 ret]. rewrite Hn. cbn [bind]. unfold ret. f_equal. f_equal.
+    rewrite (read_any l m _ z1 Hf). rewrite <- (write_readback l m (n_sign n) z0 v nv Hf Hv Hmk).
+    rewrite (read_any l m _ nv Hf). apply spec_get_ext; [exact Hf|].
+    intros i Hi Hbi. apply Hbits. unfold mbit in Hbi. apply andb_true_iff in Hbi as [_ B].
+    apply Z.leb_le in B. lia. }
+  intros i Hi Hbi. rewrite of_le_int_image by exact Hl. rewrite <- Hz0.
+  rewrite !testbit_mod_low by lia. rewrite <- (testbit_p64_low nv), <- (testbit_p64_low z0) by lia.
+  apply (write_isolated l m (n_sign n) z0 v nv i Hf Hmk); [lia|exact Hbi].
+Qed.
